@@ -1,11 +1,12 @@
 #!/bin/bash
-# usage: tools/seeded_verify.sh <ID> [check ids...]
+# usage: [WT=<worktree>] tools/seeded_verify.sh <ID> [check ids...]   (parallel-safe: scratch /tmp/sv-<ID>, logs /tmp/seedlog-<ID>)
 # Confirms a sub-agent's seeded change in its scratch worktree /tmp/seed/<ID> (existing suite passes with it;
 # demo fails with it and passes without it), stores it under /verif/seeded/<ID>/, then applies it to /repo,
 # runs the given quick checks (default: the property's own) and reverts.
 ID="$1"; shift
 CHECKS="${@:-$ID}"
-WT=${SEEDROOT:-/tmp/seed}/$ID
+WT=${WT:-${SEEDROOT:-/tmp/seed}/$ID}
+L=/tmp/seedlog-$ID; mkdir -p $L
 OUT=/verif/seeded/$ID${OUTSUFFIX:-}
 export CARGO_NET_OFFLINE=true
 [ -f $WT/SEEDED/patch.diff ] || { echo "no SEEDED/patch.diff in $WT"; exit 2; }
@@ -17,23 +18,23 @@ DEMO=$(ls tests/ | grep -i -E "seeded|demo" | head -1 | sed 's/\.rs$//')
 echo "== demo test: $DEMO"
 # 1. with the change
 git -C $WT diff --quiet -- src && { echo "src change is not applied in worktree; applying"; git -C $WT apply $OUT/patch.diff || exit 2; }
-timeout 900 cargo test --offline --test "$DEMO" > /tmp/seed_demo_with.log 2>&1; WITH=$?
-timeout 1500 cargo test --workspace --no-fail-fast --offline > /tmp/seed_suite_with.log 2>&1
-SUITE_FAILS=$(grep -E "^test .* FAILED|^test result: FAILED" /tmp/seed_suite_with.log | grep -v "$DEMO" | grep -v "pub_sub_compliant" | grep -c "^test .* FAILED")
+timeout 900 cargo test --offline --test "$DEMO" > $L/demo_with.log 2>&1; WITH=$?
+timeout 1500 cargo test --workspace --no-fail-fast --offline > $L/suite_with.log 2>&1
+SUITE_FAILS=$(grep -E "^test .* FAILED|^test result: FAILED" $L/suite_with.log | grep -v "$DEMO" | grep -v "pub_sub_compliant" | grep -c "^test .* FAILED")
 # which test binaries failed other than the demo
-DEMO_FAILS=$(grep -E "^test .* FAILED" /tmp/seed_demo_with.log | awk '{print $2}' | sort -u)
-FAILED_TESTS=$(grep -E "^test .* FAILED" /tmp/seed_suite_with.log | grep -v "test_their_pub_our_sub" | awk '{print $2}' | sort -u | grep -v -x -F "$DEMO_FAILS")
+DEMO_FAILS=$(grep -E "^test .* FAILED" $L/demo_with.log | awk '{print $2}' | sort -u)
+FAILED_TESTS=$(grep -E "^test .* FAILED" $L/suite_with.log | grep -v "test_their_pub_our_sub" | awk '{print $2}' | sort -u | grep -v -x -F "$DEMO_FAILS")
 # 2. without the change
 # (no git stash: the stash is shared between all worktrees of /repo)
 git -C $WT apply -R $OUT/patch.diff || { echo "cannot revert the change in the worktree"; exit 2; }
-timeout 900 cargo test --offline --test "$DEMO" > /tmp/seed_demo_without.log 2>&1; WITHOUT=$?
+timeout 900 cargo test --offline --test "$DEMO" > $L/demo_without.log 2>&1; WITHOUT=$?
 git -C $WT apply $OUT/patch.diff
 echo "demo with change: exit=$WITH (expect non-zero)   without change: exit=$WITHOUT (expect 0)"
 echo "existing-suite failures with change (other than the known-bad compliance test): "
 echo "$FAILED_TESTS" | grep -v "^$" | sed 's/^/   /'
 # 3. my checks - in a SCRATCH copy of /repo and of the harness (so that /repo itself is never
 # patched and a long run that builds from /repo is not disturbed)
-SV=/tmp/sv
+SV=/tmp/sv-$ID
 rm -rf $SV; mkdir -p $SV/verif
 git -C /repo worktree prune
 git -C /repo worktree add -q --detach $SV/repo HEAD || { echo "cannot create scratch worktree"; exit 2; }
@@ -44,8 +45,8 @@ cp /verif/known_findings.json $SV/verif/; cp -r /verif/replays $SV/verif/replays
 ( cd $SV/harness && cargo build --release --offline -q 2>$SV/build.log ) || { echo "harness does not build with the change"; tail -5 $SV/build.log; }
 RES=""
 for c in $CHECKS; do
-  VCHECK_STUCK_SECS=${VCHECK_STUCK_SECS:-120} timeout 1500 $SV/harness/target/release/vcheck $c quick --verif-dir $SV/verif > /tmp/seed_check_$c.log 2>&1; code=$?
-  sig=$(grep -m2 "signature:" /tmp/seed_check_$c.log | sed 's/ *signature: //' | tr '\n' ' ')
+  VCHECK_STUCK_SECS=${VCHECK_STUCK_SECS:-120} timeout 1500 $SV/harness/target/release/vcheck $c quick --verif-dir $SV/verif > $L/check_$c.log 2>&1; code=$?
+  sig=$(grep -m2 "signature:" $L/check_$c.log | sed 's/ *signature: //' | tr '\n' ' ')
   echo "check $c: exit=$code $sig"
   RES="$RES $c:exit=$code"
 done
